@@ -48,6 +48,7 @@ def run(ctx):
     ctx.assumptions += ["comment writers (output_comment_*) are an oracle: their recorded ops are monitored, not proved (partial)",
                         "cmt_*, sp_cmt_cpp_*, string_replace_tab_chars, header insertion at default"]
     ctx.lean_obligations()
+    common.lean_extra(ctx, "UncModel.Props.TokStrip", ["strip_no_trailing_blank", "strip_keeps_backslash_guard", "strip_only_blanks", "strip_idem"])
     more = os.path.exists(os.path.join(common.LEAN_DIR, "UncModel", "Props", "RenderMore.lean"))
     common.lean_extra(ctx, "UncModel.Props.Render", ["render_vis", "execops_vis", "addtext_tidy"])
     if more:
@@ -120,6 +121,52 @@ def run(ctx):
                         key = {"file": os.path.relpath(j.inp, common.REPO), "cfg": os.path.relpath(j.cfg, common.REPO), "kind": "comment-or-literal"}
                     if ctx.violation("%s [run %s]" % (why, j.name), c02._replay(j), key=key, found_input=True):
                         obad += 1
+        # --- tie of TokStrip.lean (trailing-blank strip of tokenize(), Props/TokStrip.lean): exhaustive over all tails of
+        #     length <= 4 over {blank, tab, backslash} after a `//` comment and after a #define body; the chunk text at P0
+        #     must be the model's stripTrailing of the raw text
+        import itertools
+        tails = [""] + ["".join(t) for n in range(1, 5) for t in itertools.product(" \t\\", repeat=n)]
+        sjobs = []
+        for ctxname, head in (("line-comment", "// marker7 text"), ("line-comment-indented", "      // marker7 text")):
+            for tl in tails:
+                if tl.endswith("\\"):
+                    continue          # a real continuation: the comment / directive then includes the next line
+                txt = "int before;\n" + head + tl + "\nint after;\n"
+                pth = sc.write(txt, ".c")
+                sjobs.append(pipeline.Job("strip:%s:%r" % (ctxname, tl), sc.cfg(None, {}), pth, "C", {"raw": head + tl, "ctx": ctxname}))
+        pipeline.run_jobs(exe, sjobs)
+        reqs, owners = [], []
+        for j in sjobs:
+            if j.res["rc"] != 0 or not j.res.get("trace"):
+                continue
+            hdr, p0 = unc.dump(j.res["trace"], "P0")
+            raw = j.meta["raw"]
+            got = None
+            for ln in p0:
+                c = unc.parse_chunk(ln)
+                t = "".join(chr(x) for x in c["txt"])
+                if t.startswith("// marker7"):
+                    got, want_raw = t, raw.lstrip(" ")
+                elif j.meta["ctx"] == "define-body" and c["t"] in ("PREPROC_BODY",) and "body" in t:
+                    got, want_raw = t, raw[raw.index("body"):]
+            if got is None:
+                continue
+            reqs.append("tokstrip.run " + (".".join("%x" % ord(ch) for ch in want_raw) or "-"))
+            owners.append((j, got))
+        ans = common.run_driver(reqs) if reqs else []
+        tbad = 0
+        for (j, got), a in zip(owners, ans):
+            ctx.case(j.name)
+            mh = a.split(" ")[0]
+            model = "" if mh == "-" else "".join(chr(int(x, 16)) for x in mh.split("."))
+            if model != got:
+                tbad += 1
+                if tbad <= 3:
+                    ctx.violation("tokenize() strip loop: chunk text %r, model stripTrailing gives %r [%s]" % (got, model, j.name),
+                                  {"input_text": open(j.inp).read(), "chunk_text": got, "model": model}, key=None,
+                                  found_input=got.endswith("\\") and not j.meta["raw"].endswith("\\"))
+        ctx.oblige("tie: trailing-blank strip of tokenize() = stripTrailing (TokStrip.lean), exhaustive over %d tails of a // comment at two positions (%d compared; tails ending in a backslash are real continuations)"
+                   % (len(tails), len(owners)), tbad == 0 and len(owners) > 150, "corr", "%d mismatches" % tbad)
         # ISO C splices a line only when the backslash is the very last character: the number of `//` lines that end in a
         # backslash immediately before the line break must not change (trimming a blank after that backslash would make the
         # next line part of the comment) -- independent of how a lexer treats backslash-blank-newline
